@@ -232,6 +232,17 @@ def observe(cfg, want):
         v2 = P.CellVariable(c.m, old2.copy(), bc_with(cfg, "c2", c.m, d))
         P.solvePDE(v2, terms_for(v2, g2))
         obs["r_solve2"] = lift_sol(np.asarray(v2._value))
+        # multi-step history: after a solve only the datum c of every side is updated in place (slice
+        # assignment), then the same system is solved again: the new step must honour the new data
+        v_h = P.CellVariable(c.m, old.copy(), bc_with(cfg, "c", c.m, d))
+        P.solvePDE(v_h, terms_for(v_h, g1))
+        for a in range(d):
+            for s_ in SIDES[a]:
+                side = getattr(v_h.BCs, s_)
+                side.c[...] = to_float_array(cfg["bc"][s_]["c2"]).reshape(side.c.shape)
+        v_h.value = old2
+        P.solvePDE(v_h, terms_for(v_h, g2))
+        obs["r_history"] = lift_sol(np.asarray(v_h._value))
         # pieces needed by the residual clause (C12), all lifted from the code
         obs["Aspatial"] = opsdrive.mat_entries(A, c.dims) if A is not None else []
         # steady state as a fixed point: gamma_s := A x*, start from x*  (any dt, alpha)
